@@ -27,6 +27,7 @@ META = {
     "level_note": "Treats literal-ness at extraction as the static stand-in for presence at run time. The translations "
     "object is the documented Translations protocol.",
 }
+META["technique"] += '; render/expressions agreement for every Node (shared with C11.R2); registration-name vs extraction-keyword table agreement including aliases'
 
 PLURAL = {"ngettext", "npgettext"}
 SINGULAR = {"gettext", "pgettext"}
@@ -285,6 +286,58 @@ def run(prog: Program, res: Result) -> None:  # noqa: PLR0912, PLR0915
                 else:
                     res.fail("C15.R1", file=target.file, line=target.node.lineno, qualname=target.name, construct=f"{target.name} has no message()", message=f"translation filter {name} performs catalog lookups but has no extractor", what=what)
     res.floor("C15.R1", "translatable filters registered", n_tf, 5)
+    # R12: the names render looks translation filters up under are the names the extractor listens for
+    res.rule("C15.R12", "every name under which a translation filter is registered - directly or as an alias of an existing registration (`env.filters[k] = env.filters[…]`) - is a key of messages.DEFAULT_KEYWORDS: `_extract_from_first_filter` only considers filters whose name is a keyword, so `{{ 'apple' | _ }}` under an unlisted alias looks a message up that extraction never reports")
+    msgs_mod = prog.mod("liquid2/messages.py")
+    kw_node = msgs_mod.globals_.get("DEFAULT_KEYWORDS")
+    if not isinstance(kw_node, ast.Dict):
+        raise AnalysisError("messages.DEFAULT_KEYWORDS is not a dict literal")
+    keywords_ = {k.value for k in kw_node.keys if isinstance(k, ast.Constant)}
+    n12 = 0
+    trans_names: set[str] = set()
+    for name, regs in filters.items():
+        for _n, target, _v, _m in regs:
+            if isinstance(target, ClassInfo) and isinstance(tf, ClassInfo) and prog.is_subclass(target, tf):
+                n12 += 1
+                trans_names.add(name)
+                what = f"translation filter name `{name}` is an extraction keyword"
+                if name in keywords_:
+                    res.ok("C15.R12", f"{target.file}:{target.node.lineno} {target.name}", what, "in DEFAULT_KEYWORDS")
+                else:
+                    res.fail("C15.R12", file=target.file, line=target.node.lineno, qualname=target.name, construct=f"translation filter registered as `{name}`, not a keyword", message=f"{target.name} is registered under `{name}`, which DEFAULT_KEYWORDS does not list: its lookups are never extracted", what=what)
+    for mod_ in prog.modules.values():
+        for a in ast.walk(mod_.tree):
+            if not (isinstance(a, ast.Assign) and len(a.targets) == 1 and isinstance(a.targets[0], ast.Subscript) and isinstance(a.targets[0].value, ast.Attribute) and a.targets[0].value.attr == "filters"):
+                continue
+            v_ = a.value
+            if not (isinstance(v_, ast.Subscript) and isinstance(v_.value, ast.Attribute) and v_.value.attr == "filters") and not (isinstance(v_, ast.Call) and isinstance(v_.func, ast.Attribute) and v_.func.attr == "get" and isinstance(v_.func.value, ast.Attribute) and v_.func.value.attr == "filters"):
+                continue
+            n12 += 1
+            key_ = a.targets[0].slice
+            src_ = v_.slice if isinstance(v_, ast.Subscript) else (v_.args[0] if v_.args else None)
+
+            def _const(e: ast.AST | None) -> str | None:
+                if isinstance(e, ast.Constant) and isinstance(e.value, str):
+                    return e.value
+                if isinstance(e, ast.Attribute) and e.attr == "name" and isinstance(e.value, ast.Name):
+                    ci_ = prog.resolve(mod_, e.value.id)
+                    nm_ = ci_.node if isinstance(ci_, ClassInfo) else None
+                    for st_ in (nm_.body if nm_ is not None else []):
+                        if isinstance(st_, ast.Assign) and any(isinstance(t, ast.Name) and t.id == "name" for t in st_.targets) and isinstance(st_.value, ast.Constant):
+                            return st_.value.value
+                return None
+
+            k_, s_ = _const(key_), _const(src_)
+            fi_ = prog.enclosing_function(mod_, a)
+            q_ = fi_.qualname if fi_ else "<module>"
+            what = f"{q_}: alias `{k_ or norm(key_)}` of filter `{s_ or norm(src_) if src_ is not None else '?'}`"
+            if s_ is not None and s_ not in trans_names:
+                res.ok("C15.R12", f"{mod_.relpath}:{a.lineno} {q_}", what, "not a translation filter")
+            elif k_ is not None and k_ in keywords_:
+                res.ok("C15.R12", f"{mod_.relpath}:{a.lineno} {q_}", what, "alias is a keyword")
+            else:
+                res.fail("C15.R12", file=mod_.relpath, line=a.lineno, qualname=q_, construct=f"{q_}: translation filter aliased as `{k_ or norm(key_)}`, not a keyword", message=f"{q_} registers `{norm(a, 70)}`: the alias runs {s_ or 'a possibly translating filter'} at render time, but DEFAULT_KEYWORDS has no `{k_ or norm(key_)}`, so `{{{{ 'apple' | {k_ or '…'} }}}}` makes a catalog lookup that extraction never reports", what=what)
+    res.floor("C15.R12", "translation filter registrations and aliases", n12, 5)
     # R6: the extractor twins bind arguments like the call does
     res.rule("C15.R6", "message() of a translation filter takes its operands from the positional arguments only (the call is func(left, *positional, **keywords)): no constant index into the filter's mixed argument list, where a keyword argument written first would be taken for the plural or the context")
     n_msg = 0
@@ -598,6 +651,12 @@ def run(prog: Program, res: Result) -> None:  # noqa: PLR0912, PLR0915
     from checks.shared import check_unconditional_contributions
 
     check_unconditional_contributions(prog, res, "C15.R7")
+    res.rule("C15.R11", "extraction walks what render evaluates: for every Node class the expressions evaluated and blocks rendered by render_to_output[_async] are among those expressions() / children() hand out - an argument that render evaluates and expressions() filters out (a repeated name, a non-path value) can hold a `| t` filter whose lookup extraction never sees (= C11.R2)")
+    from checks.C11 import NODE_USE
+    from checks.C11 import _agreement
+
+    n11_ = _agreement(prog, res, "C15.R11", "liquid2.ast.Node", ("render_to_output", "render_to_output_async"), NODE_USE, ("children", "expressions"))
+    res.floor("C15.R11", "node attribute obligations", n11_, 25)
 
     # ------------------------------------------------------------------ R8 message line numbers and error positions use one search
     res.rule("C15.R8", "a message's line number is found by the same offset -> line search as error positions: messages.line_number, line_number_factory._line_number and LiquidError._error_context agree after normalisation and report `<index of the line found> + 1` (shared with C17.R8)")
